@@ -747,6 +747,22 @@ var containerKinds = []string{"islice", "islice", "pislice", "iarr2", "sslice", 
 
 func (c *valConfig) genContainer(rt *rapid.T, depth int, pub bool) *Val {
 	k := c.pickK(rt, "ck", containerKinds)
+	if !c.noPanic && rapid.IntRange(0, 19).Draw(rt, "afterpanic") == 7 {
+		// an element whose method panics (caught and reported), followed by
+		// siblings whose rendering depends on the directive's flags, width
+		// and precision: the rest of the directive goes on as before
+		pk := c.pickK(rt, "apk", []string{"stringer!", "err!", "gostr!"})
+		pv := c.leafS(rt, pk, pub, false)
+		pv.Sub = []*Val{c.leafS(rt, "str", pub, false)}
+		sa := &Val{K: "structA", Sub: []*Val{c.leafI(rt, "int", pub), c.leafS(rt, "str", pub, false)}, S: B("y"), I: 3}
+		li := c.leafI(rt, "int", pub)
+		sb := c.leafS(rt, "structblank", pub, false)
+		sb.I, sb.J = li.I, li.J
+		if sb.HasT && !li.HasT {
+			sb.J = sb.I
+		}
+		return &Val{K: "islice", Sub: []*Val{c.leafS(rt, "str", pub, false), pv, sa, c.leafF(rt, "f64", pub), sb}}
+	}
 	if !c.two && rapid.IntRange(0, 24).Draw(rt, "mak") == 13 {
 		// keys that are arrays / structs holding interfaces, several of them
 		// equal (also nil) in their first component
